@@ -2,6 +2,7 @@
 From Coq Require Import ZArith QArith List Bool Lia.
 Import ListNotations.
 From Inf Require Import base.ListX model.PathM model.EngineM model.WeightM model.SwapM proofs.PathP.
+From Inf Require model.MovesM.
 Open Scope Z_scope.
 
 (* ------------------------------------------------------------------ the stop rule *)
@@ -17,12 +18,12 @@ Definition stops_at (l r : Z) (s : list frame) (k : nat) : Prop :=
 
 Lemma add_to_path_room p f l r :
   (plen p < maxlen p)%nat ->
-  add_to_path p f l r =
+  MovesM.add_to_path_g true p f l r =
   Some (mkP (pts p ++ [f]) (maxlen p) (torigin p),
-        crossedb l r f && negb (S (plen p) =? maxlen p)%nat,
+        crossedb l r f,
         crossedb l r f || (S (plen p) =? maxlen p)%nat, true).
 Proof.
-  intros Hroom. unfold add_to_path, append.
+  intros Hroom. unfold MovesM.add_to_path_g, append.
   destruct (Nat.ltb_spec (plen p) (maxlen p)) as [_|Hge]; [|lia].
   cbn [pts]. rewrite rev_app_distr. cbn [rev app].
   unfold crossedb, plen. cbn [pts maxlen]. rewrite app_length. cbn [length].
@@ -30,24 +31,27 @@ Proof.
   destruct (ford f <? l); destruct (r <? ford f); destruct (S (length (pts p)) =? maxlen p)%nat; reflexivity.
 Qed.
 
+(* what a normal return of the propagation loop means (current stop rule) *)
 Lemma propagate_loop_inv l r : forall s p n0 p' succ n',
   (plen p < maxlen p)%nat ->
-  propagate_loop p s l r n0 = PR p' succ n' ->
+  MovesM.propagate_loop_g true p s l r n0 = PR p' succ n' ->
   exists k, (1 <= k)%nat /\ n' = (n0 + k)%nat /\ (k <= length s)%nat /\
     pts p' = pts p ++ firstn k s /\ maxlen p' = maxlen p /\ torigin p' = torigin p /\
     (plen p + k <= maxlen p)%nat /\
     (forall f, In f (firstn (k - 1) s) -> crossedb l r f = false) /\
-    (succ = true -> (plen p + k < maxlen p)%nat) /\
-    ((plen p + k < maxlen p)%nat -> succ = true /\
-       exists lastf, nth_error s (k - 1) = Some lastf /\ crossedb l r lastf = true).
+    (exists lastf, nth_error s (k - 1) = Some lastf /\ succ = crossedb l r lastf) /\
+    (succ = false -> (plen p + k = maxlen p)%nat).
 Proof.
-  induction s as [|f s IH]; intros p n0 p' succ n' Hroom H; cbn [propagate_loop] in H; [discriminate|].
+  induction s as [|f s IH]; intros p n0 p' succ n' Hroom H; cbn [MovesM.propagate_loop_g] in H; [discriminate|].
   rewrite (add_to_path_room p f l r Hroom) in H.
-  destruct (Nat.eqb_spec (S (plen p)) (maxlen p)) as [Hfull|Hnf];
-    destruct (crossedb l r f) eqn:Hc; cbn [orb andb negb] in H.
-  1-3: inversion H; subst; clear H; exists 1%nat; cbn [firstn length Nat.sub pts maxlen torigin nth_error];
-    repeat split; try lia; try discriminate; try (intros ? []); try reflexivity.
-  1: exists f; split; [reflexivity|exact Hc].
+  destruct (crossedb l r f) eqn:Hc; cbn [orb] in H.
+  { inversion H; subst; clear H. exists 1%nat. cbn [firstn length Nat.sub pts maxlen torigin nth_error].
+    repeat split; try lia; try discriminate; try (intros ? []).
+    exists f. split; [reflexivity|symmetry; exact Hc]. }
+  destruct (Nat.eqb_spec (S (plen p)) (maxlen p)) as [Hfull|Hnf].
+  { inversion H; subst; clear H. exists 1%nat. cbn [firstn length Nat.sub pts maxlen torigin nth_error].
+    repeat split; try lia; try (intros ? []).
+    exists f. split; [reflexivity|symmetry; exact Hc]. }
   set (p1 := mkP (pts p ++ [f]) (maxlen p) (torigin p)) in *.
   assert (Hl : plen p1 = S (plen p)).
   { unfold plen, p1. cbn [pts]. rewrite app_length. cbn [length]. lia. }
@@ -56,23 +60,23 @@ Proof.
   exists (S k). cbn [firstn length]. unfold p1 in K4, K5, K6. cbn [pts maxlen torigin] in K4, K5, K6.
   rewrite Hl in *. cbn [maxlen p1] in *.
   replace (S k - 1)%nat with (S (k - 1)) by lia. cbn [firstn nth_error].
-  repeat split; try lia; try assumption.
-  all: try (rewrite K4, <- app_assoc; reflexivity).
-  all: try (intros g [<-|Hg]; [exact Hc|apply K8; exact Hg]).
-  all: try (intros Hs; specialize (K9 Hs); lia).
-  all: apply K10; lia.
+  split; [lia|]. split; [lia|]. split; [lia|].
+  split; [rewrite K4, <- app_assoc; reflexivity|].
+  split; [exact K5|]. split; [exact K6|]. split; [unfold p1 in K7; cbn [maxlen] in K7; lia|].
+  split; [intros g [<-|Hg]; [exact Hc|apply K8; exact Hg]|].
+  split; [exact K9|].
+  intros Hs. specialize (K10 Hs). unfold p1 in K10. cbn [maxlen] in K10. lia.
 Qed.
 
 Lemma propagate_loop_run l r : forall pre p n0 lastf post,
   (forall f, In f pre -> crossedb l r f = false) -> crossedb l r lastf = true ->
-  (plen p + length pre + 1 < maxlen p)%nat ->
-  propagate_loop p (pre ++ lastf :: post) l r n0 =
+  (plen p + length pre + 1 <= maxlen p)%nat ->
+  MovesM.propagate_loop_g true p (pre ++ lastf :: post) l r n0 =
   PR (mkP (pts p ++ pre ++ [lastf]) (maxlen p) (torigin p)) true (n0 + length pre + 1).
 Proof.
-  induction pre as [|f pre IH]; intros p n0 lastf post Hpre Hlast Hroom; cbn [app propagate_loop length] in *.
-  - rewrite add_to_path_room by lia. rewrite Hlast. cbn [orb andb].
-    destruct (Nat.eqb_spec (S (plen p)) (maxlen p)); [lia|]. cbn [negb]. f_equal. lia.
-  - rewrite add_to_path_room by lia. rewrite (Hpre f (or_introl eq_refl)). cbn [orb andb].
+  induction pre as [|f pre IH]; intros p n0 lastf post Hpre Hlast Hroom; cbn [app MovesM.propagate_loop_g length] in *.
+  - rewrite add_to_path_room by lia. rewrite Hlast. cbn [orb]. f_equal. lia.
+  - rewrite add_to_path_room by lia. rewrite (Hpre f (or_introl eq_refl)). cbn [orb].
     destruct (Nat.eqb_spec (S (plen p)) (maxlen p)); [lia|].
     rewrite IH; try assumption.
     + cbn [pts maxlen torigin]. rewrite <- app_assoc. cbn [app]. f_equal. lia.
@@ -117,20 +121,20 @@ Lemma engine_call_inv M t streams init rv l r p' rest c :
 Proof.
   unfold engine_call. destruct streams as [|s0 rest0]; [discriminate|].
   destruct s0 as [|f tl]; [discriminate|].
-  unfold propagate.
+  unfold MovesM.propagate_fixed, MovesM.propagate_g.
   destruct M as [|M].
   { cbn. discriminate. }
-  destruct (propagate_loop (empty_path (S M) t) (f :: tl) l r 0) as [p1 succ n| |] eqn:E; try discriminate.
+  destruct (MovesM.propagate_loop_g true (empty_path (S M) t) (f :: tl) l r 0) as [p1 succ n| |] eqn:E; try discriminate.
   intros H. inversion H; subst; clear H.
   apply propagate_loop_inv in E; [|cbn; lia].
-  destruct E as (k & K1 & K2 & K3 & K4 & K5 & K6 & K7 & K8 & K9 & K10).
+  destruct E as (k & K1 & K2 & K3 & K4 & K5 & K6 & K7 & K8 & (lf & Hn & Hs) & K10).
   cbn [empty_path pts maxlen torigin plen length app] in *. cbn [Nat.add] in *. subst n.
   exists (f :: tl), k. repeat split; try assumption; try lia.
-  - destruct (K10 H) as (_ & lf & Hn & Hc). exists lf. split; assumption.
+  - exists lf. split; [exact Hn|]. destruct succ; [symmetry; exact Hs|]. specialize (K10 eq_refl). lia.
 Qed.
 
 Lemma engine_call_run M t s0 rest init rv l r k :
-  stops_at l r s0 k -> (k < M)%nat ->
+  stops_at l r s0 k -> (k <= M)%nat ->
   engine_call (empty_path M t) (s0 :: rest) init rv l r =
   Ok (mkP (firstn k s0) M t, rest, mkCall init rv l r M k).
 Proof.
@@ -138,7 +142,7 @@ Proof.
   destruct (stops_at_split _ _ _ _ Hst) as (lastf & Hs & Hc & Hf & Hlen).
   unfold engine_call. destruct s0 as [|f tl].
   { destruct (firstn (k - 1) []); discriminate. }
-  unfold propagate. rewrite Hs at 1.
+  unfold MovesM.propagate_fixed, MovesM.propagate_g. rewrite Hs at 1.
   rewrite propagate_loop_run; try assumption.
   - cbn [empty_path pts maxlen torigin app]. rewrite Hlen. rewrite <- Hf.
     replace (0 + (k - 1) + 1)%nat with k by lia. reflexivity.
@@ -308,3 +312,123 @@ Proof.
   - destruct (final_weight path0 e0); [|discriminate]. destruct (final_weight path1 e1); discriminate.
   - destruct (final_weight path0 e0); [|discriminate]. destruct (final_weight path1 e1); discriminate.
 Qed.
+
+
+(* ------------------------------------------------------------------ shape of an accepted retis swap *)
+
+Lemma first_second_shape p f g :
+  first_frame p = Some f -> second_frame p = Some g -> exists tl, pts p = f :: g :: tl.
+Proof.
+  unfold first_frame, second_frame. destruct (pts p) as [|a [|b t]]; cbn; try discriminate.
+  intros [= ->] [= ->]. eauto.
+Qed.
+
+Lemma last_last2_shape p f g :
+  last_frame p = Some f -> last2_frame p = Some g -> exists pre, pts p = pre ++ [g; f].
+Proof.
+  unfold last_frame, last2_frame. intros H1 H2.
+  destruct (rev (pts p)) as [|a [|b t]] eqn:E; cbn in *; try discriminate.
+  injection H1 as ->. injection H2 as ->. exists (rev t).
+  rewrite <- (rev_involutive (pts p)), E. cbn. rewrite <- app_assoc. reflexivity.
+Qed.
+
+Lemma end_is_R ep : is_R ep = true -> ep = SR.
+Proof. destruct ep; cbn; congruence. Qed.
+
+(* everything an accepted retis_swap_zero tells about its inputs and outputs *)
+Definition retis_acc_shape (e0 e1 : ens) (old0 old1 new0 new1 : path)
+           (streams : list (list frame)) (calls : list call) : Prop :=
+  exists f10 f11 tl1 pre0 f0m2 f0l s0 s1 rest k0 k1,
+    pts old1 = f10 :: f11 :: tl1 /\ pts old0 = pre0 ++ [f0m2; f0l] /\
+    streams = s0 :: s1 :: rest /\
+    pts new0 = rev (firstn k0 s0) ++ [dump dumpf DSecond f11] /\
+    maxlen new0 = e_maxlen e0 /\ torigin new0 = 0 /\
+    map erase (pts new1) = erase (dump dumpf DSecondLast f0m2) :: map erase (firstn k1 s1) /\
+    maxlen new1 = e_maxlen e1 /\ torigin new1 = 0 /\
+    (2 <= k0 <= length s0)%nat /\ (k0 + 1 < e_maxlen e0)%nat /\ (k0 <= e_maxlen e1 - 1)%nat /\
+    (forall f, In f (firstn (k0 - 1) s0) -> crossedb (e_i0 e0) (e_i2 e0) f = false) /\
+    ((k0 < e_maxlen e1 - 1)%nat -> stops_at (e_i0 e0) (e_i2 e0) s0 k0) /\
+    (2 <= k1 <= length s1)%nat /\ (k1 + 1 < e_maxlen e1)%nat /\
+    stops_at (e_i0 e1) (e_i2 e1) s1 k1 /\
+    (e_scL e0 = false -> has_L_start_end new0 e0 = false) /\
+    end_point old0 (e_i0 e0) (e_i2 e0) = Some SR /\ lm1_early e0 old0 = false /\
+    calls = [mkCall (copy_frame 0 f10) true (e_i0 e0) (e_i2 e0) (e_maxlen e1 - 1) k0;
+             mkCall (copy_frame 0 f0l) false (e_i0 e1) (e_i2 e1) (e_maxlen e1 - 1) k1].
+
+Theorem retis_acc_struct e0 e1 old0 old1 streams draws sp0 sp1 st calls nd :
+  retis_swap_zero dumpf e0 e1 old0 old1 streams draws = Out true sp0 sp1 st calls nd ->
+  st = ACC /\ sp_status sp0 = ACC /\ sp_status sp1 = ACC /\
+  retis_acc_shape e0 e1 (sp_path old0) (sp_path old1) (sp_path sp0) (sp_path sp1) streams calls.
+Proof.
+  intros H. apply retis_acc_inv in H.
+  destruct H as (ep & str1 & str2 & calls0 & calls1 & Hep & Hearly & H0 & H1 & Hst & Hs0 & Hs1 & Hcalls).
+  apply retis_path0_acc in H0.
+  destruct H0 as (Hall & f10 & f11 & s0 & k0 & Hf10 & Hf11 & Hstr & Hp0 & Hm0 & Ht0 & Hk0 & Hk0m & Hk0m1 & Hk0l & Hpre0 & Hstop0 & HL & Hc0).
+  apply retis_path1_acc in H1.
+  destruct H1 as (_ & f0l & f0m2 & s1 & k1 & Hf0l & Hf0m2 & Hstr1 & Hp1 & Hm1 & Ht1 & Hk1 & Hk1m & Hk1l & Hstop1 & Hc1).
+  destruct (first_second_shape _ _ _ Hf10 Hf11) as (tl1 & Hold1).
+  destruct (last_last2_shape _ _ _ Hf0l Hf0m2) as (pre0 & Hold0).
+  apply end_is_R in Hall. subst ep.
+  split; [exact Hst|]. split; [exact Hs0|]. split; [exact Hs1|].
+  exists f10, f11, tl1, pre0, f0m2, f0l, s0, s1, str2, k0, k1.
+  subst streams str1 calls calls0 calls1.
+  repeat match goal with |- _ /\ _ => split end; try assumption; try reflexivity; try lia.
+Qed.
+
+(* the junction: the last two frames of the new [0-] path are the engine's own frame for the
+   phase point old[0+][0] it was started from and the dumped copy of old[0+][1]; the first two
+   frames of the new [0+] path are the dumped copy of old[0-][-2] and the engine's own frame
+   for the phase point old[0-][-1] *)
+Theorem retis_junction_frames e0 e1 old0 old1 new0 new1 streams calls :
+  retis_acc_shape e0 e1 old0 old1 new0 new1 streams calls ->
+  exists f10 f11 tl1 pre0 f0m2 f0l g0 r0 g1 r1 rest back forw,
+    pts old1 = f10 :: f11 :: tl1 /\ pts old0 = pre0 ++ [f0m2; f0l] /\
+    streams = (g0 :: r0) :: (g1 :: r1) :: rest /\
+    pts new0 = back ++ [g0; dump dumpf DSecond f11] /\
+    map erase (pts new1) = erase (dump dumpf DSecondLast f0m2) :: erase g1 :: forw /\
+    map c_init calls = [copy_frame 0 f10; copy_frame 0 f0l] /\ map c_rev calls = [true; false].
+Proof.
+  intros (f10 & f11 & tl1 & pre0 & f0m2 & f0l & s0 & s1 & rest & k0 & k1 & Ho1 & Ho0 & Hs & Hp0 & _ & _ & Hp1 & _ & _ &
+          Hk0 & _ & _ & _ & _ & Hk1 & _ & _ & _ & _ & _ & Hc).
+  destruct s0 as [|g0 r0]; [cbn in Hk0; lia|]. destruct s1 as [|g1 r1]; [cbn in Hk1; lia|].
+  destruct k0 as [|k0]; [lia|]. destruct k1 as [|k1]; [lia|].
+  cbn [firstn rev map] in Hp0, Hp1.
+  exists f10, f11, tl1, pre0, f0m2, f0l, g0, r0, g1, r1, rest, (rev (firstn k0 r0)), (map erase (firstn k1 r1)).
+  subst calls. repeat split; try assumption.
+  rewrite Hp0, <- app_assoc. reflexivity.
+Qed.
+
+Definition lastn {A} (n : nat) (l : list A) : list A := skipn (length l - n) l.
+
+Lemma lastn_app2 {A} (pre : list A) a b : lastn 2 (pre ++ [a; b]) = [a; b].
+Proof.
+  unfold lastn. rewrite app_length. cbn [length].
+  replace (length pre + 2 - 2)%nat with (length pre + 0)%nat by lia.
+  rewrite skipn_app, Nat.add_0_r, skipn_all, Nat.sub_diag. reflexivity.
+Qed.
+
+Lemma map_ford_erase l : map ford l = map (fun e : Z * Z * bool => fst (fst e)) (map erase l).
+Proof. rewrite map_map. apply map_ext. intros []; reflexivity. Qed.
+
+(* ... as order parameters, when the engine's first frame carries the order parameter of the
+   phase point it was given (the propagate contract, property C12) *)
+Theorem retis_junction_orders e0 e1 old0 old1 new0 new1 streams calls :
+  retis_acc_shape e0 e1 old0 old1 new0 new1 streams calls ->
+  (forall k c s g, nth_error calls k = Some c -> nth_error streams k = Some s -> hd_error s = Some g ->
+                   ford g = ford (c_init c)) ->
+  lastn 2 (orders new0) = firstn 2 (orders old1) /\
+  firstn 2 (orders new1) = lastn 2 (orders old0).
+Proof.
+  intros Hsh Hhon. destruct (retis_junction_frames _ _ _ _ _ _ _ _ Hsh)
+    as (f10 & f11 & tl1 & pre0 & f0m2 & f0l & g0 & r0 & g1 & r1 & rest & back & forw & Ho1 & Ho0 & Hs & Hp0 & Hp1 & Hci & _).
+  destruct calls as [|c0 [|c1 [|]]]; try discriminate. cbn in Hci. injection Hci as Hc0 Hc1.
+  assert (Hg0 : ford g0 = ford f10).
+  { rewrite (Hhon 0%nat c0 (g0 :: r0) g0); subst; cbn; try reflexivity. rewrite Hc0. reflexivity. }
+  assert (Hg1 : ford g1 = ford f0l).
+  { rewrite (Hhon 1%nat c1 (g1 :: r1) g1); subst; cbn; try reflexivity. rewrite Hc1. reflexivity. }
+  unfold orders. split.
+  - rewrite Hp0, Ho1, map_app. cbn [map firstn]. rewrite lastn_app2. cbn [dump ford]. rewrite Hg0. reflexivity.
+  - rewrite (map_ford_erase (pts new1)), Hp1, Ho0, map_app. cbn [map firstn erase dump ford fst]. rewrite lastn_app2, Hg1. reflexivity.
+Qed.
+
+End WithDump.
